@@ -9,6 +9,21 @@ from fbh import core, props  # noqa: E402
 
 
 def main():
+    if os.environ.get('FBH_TRACE'):      # diagnostics: where the parent process is, every 20 s, with its resident memory
+        import faulthandler
+        import threading
+        fh = open(os.environ['FBH_TRACE'], 'w')
+        faulthandler.dump_traceback_later(20, repeat=True, file=fh)
+
+        def mem():
+            import time
+            while True:
+                with open('/proc/self/status') as st:
+                    rss = [l for l in st if l.startswith('VmRSS')]
+                fh.write('RSS %s' % (rss[0] if rss else '?\n'))
+                fh.flush()
+                time.sleep(20)
+        threading.Thread(target=mem, daemon=True).start()
     ap = argparse.ArgumentParser()
     ap.add_argument('prop')
     ap.add_argument('--tier', default=os.environ.get('VERIF_TIER', 'quick'), choices=['quick', 'thorough'])
